@@ -63,9 +63,21 @@ static void handler(const Line& t, Out& o) {
   case 2: { // update r kind args
     cpc_sketch& s = gets(t.at(1)); int kind = (int)t.at(2);
     try {
-      if (kind == 2) s.update(vh::bytes_of(t, 3));
-      else if (kind == 1) s.update((int64_t)t.at(3));
-      else s.update((uint64_t)t.at(3));
+      I v = t.size() > 3 ? t[3] : 0;
+      switch (kind) {   // kinds as in coq/Canon.v canon_input
+        case 0: s.update((uint64_t)v); break;
+        case 1: s.update((int64_t)v); break;
+        case 2: s.update((uint32_t)v); break;
+        case 3: s.update((int32_t)v); break;
+        case 4: s.update((uint16_t)v); break;
+        case 5: s.update((int16_t)v); break;
+        case 6: s.update((uint8_t)v); break;
+        case 7: s.update((int8_t)v); break;
+        case 8: s.update(vh::bitsd(v)); break;
+        case 9: s.update(vh::bitsf(v)); break;
+        case 10: s.update(vh::bytes_of(t, 3)); break;
+        default: { std::string bytes = vh::bytes_of(t, 3); s.update(static_cast<const void*>(bytes.data()), bytes.size()); break; }
+      }
     } catch (...) { sk.erase((long)t.at(1)); throw; }
     o.R(1); break; }
   case 3: { // raw row_col_update r rc
